@@ -382,7 +382,6 @@ pub fn run(args: &[String]) -> ! {
     }
     ctx.set("evaluations", evals);
     ctx.set("distinct_nontrivial", accepted);
-    ctx.set("requests_accepted", accepted);
     ctx.set("refusals_by_kind", json!(refusals));
     ctx.set("mismatches", nbad);
     ctx.set("rule", format!("yield authority {{none, displayname}} x entry id {IDS:?} x schema {SCHEMAS:?} x attributes {ATTRS:?} x state {{active, refresh}} x retention {RETAIN:?}, each applied by agreement 1 through the real scim_sync_apply in a forked copy of a prepared server (two agreements with one entry each, a native person, a recycled synced entry); plus a user with a broad write profile editing displayname / legalname / description of the synced entry and of a native person"));
